@@ -1,4 +1,4 @@
-import UralModel.Lemmas.FacebookNonempty
+import UralModel.Lemmas.FacebookBlank
 /-!
 From "the parser returned this record" to the hypothesis of the round-trip theorem (C19,
 `ural/facebook.py`): the conditions of `reparsable` that say "no earlier route of the parser
@@ -146,11 +146,6 @@ theorem seg_ne_word (path w : Str) (hhead : path.head? = some '/') (hw : '/' ∉
   exact absurd this (by simp)
 
 /-! ## route by route: the record returned satisfies `reparsable` -/
-
-/-- `path` is empty or starts with a slash (what `urlsplit` returns after an authority) -/
-def PathAbs (path : Str) : Prop := path = [] ∨ path.head? = some '/'
-
-theorem pathsplit_nil : pathsplit [] = [] := by decide
 
 theorem head_of_abs {path : Str} (habs : PathAbs path) (hne : pathsplit path ≠ []) : path.head? = some '/' := by
   rcases habs with h | h
